@@ -1,46 +1,42 @@
 (* C13 — compile-time evaluation (portable fallbacks as written in /repo, Model.v: ct_F) and run-time
    execution (compiler builtins / libc, written down as their specification, Spec.v: rt_F) give the
-   same answer.  Property theorems only: each is closed by [exact] of a lemma proved in Proofs*.v,
-   followed by Print Assumptions. *)
+   same answer, and the compile-time path has no undefined step (every ct_F returns Ok: no signed
+   overflow, no out-of-range float->integer conversion, no read outside the array, fuel not exhausted)
+   on every argument of the documented domain.
+   Property theorems only: each is closed by [exact]/[conj] of lemmas proved in Proofs*.v, followed
+   by Print Assumptions.  Related statements are grouped into one conjunction (Print Assumptions
+   walks the whole dependency closure once per theorem). *)
 From Tetl Require Import Lib.Base C13.Float C13.Model C13.Spec
   C13.ProofsSign C13.ProofsSat C13.ProofsStr C13.ProofsFma C13.ProofsPop C13.ProofsSwap C13.ProofsCls
-  C13.ProofsFloor C13.ProofsCeilTrunc C13.ProofsRoundAway.
+  C13.ProofsFloor C13.ProofsCeilTrunc C13.ProofsRoundAway C13.ProofsRint C13.ProofsFmaExact C13.ProofsFmod C13.ProofsCodec C13.NonVac.
 Local Open Scope Z_scope.
 
 (** * bit utilities *)
-
-(* detail::popcount_fallback (Kernighan loop, what constant evaluation runs) returns the number of set
-   bits below the width (what __builtin_popcount{,l,ll} return), for EVERY width and value; the loop
-   never needs more than w iterations *)
-Theorem C13_popcount : forall w x, 0 <= w -> 0 <= x < 2 ^ w -> ct_popcount w x = Ok (rt_popcount w x).
-Proof. exact popcount_ct_eq_rt. Qed.
-Print Assumptions C13_popcount.
-
-(* detail::byteswap_fallback (shifts and masks) reverses the bytes like __builtin_bswap16/32/64, for
-   every value of uint16/32/64; 1-byte values are returned unchanged *)
-Theorem C13_byteswap : forall w v, (w = 8 \/ w = 16 \/ w = 32 \/ w = 64) -> 0 <= v < 2 ^ w ->
-  ct_byteswap w v = Ok (rt_byteswap w v).
-Proof. exact byteswap_ct_eq_rt. Qed.
-Print Assumptions C13_byteswap.
+(* popcount: detail::popcount_fallback (Kernighan loop, what constant evaluation runs) returns the
+   number of set bits below the width (what __builtin_popcount{,l,ll} return), for EVERY width and
+   value; the loop never needs more than w iterations.
+   byteswap: detail::byteswap_fallback (shifts and masks) reverses the bytes like
+   __builtin_bswap16/32/64, for every value of uint16/32/64; 1-byte values are returned unchanged *)
+Theorem C13_bits :
+  (forall w x, 0 <= w -> 0 <= x < 2 ^ w -> ct_popcount w x = Ok (rt_popcount w x)) /\
+  (forall w v, (w = 8 \/ w = 16 \/ w = 32 \/ w = 64) -> 0 <= v < 2 ^ w ->
+     ct_byteswap w v = Ok (rt_byteswap w v)).
+Proof. exact (conj popcount_ct_eq_rt byteswap_ct_eq_rt). Qed.
+Print Assumptions C13_bits.
 
 (** * saturating addition: integer types of EVERY width *)
-
 (* detail::add_sat_fallback (the if-constexpr ladder: add in int / in a 64-bit type / compare before
    adding) returns the exact sum clamped to the range of the type, with no signed overflow on the
-   way.  The one excluded combination, an unsigned type of exactly 31 bits, does not exist in C++
-   (C13_add_sat_u31_excluded shows that the exclusion is needed). *)
-Theorem C13_add_sat_fallback : forall t x y, 0 < bits t ->
-  (sgn t = false -> bits t <> 31) ->
-  in_ty t x = true -> in_ty t y = true -> ct_add_sat t x y = Ok (rt_add_sat t x y).
-Proof. exact add_sat_ct_eq_rt. Qed.
-Print Assumptions C13_add_sat_fallback.
-
-(* etl::add_sat itself (GCC/Clang: __builtin_add_overflow, modelled by its specification, then the
-   sign test) returns the same clamped sum: fallback and builtin path agree for every width *)
-Theorem C13_add_sat_builtin_path : forall t x y, 0 < bits t ->
-  in_ty t x = true -> in_ty t y = true -> code_add_sat t x y = Ok (rt_add_sat t x y).
-Proof. exact add_sat_code_eq_rt. Qed.
-Print Assumptions C13_add_sat_builtin_path.
+   way; etl::add_sat itself (GCC/Clang: __builtin_add_overflow, modelled by its specification, then
+   the sign test) returns the same clamped sum.  The one excluded combination, an unsigned type of
+   exactly 31 bits, does not exist in C++ (C13_add_sat_u31_excluded: the exclusion is needed). *)
+Theorem C13_add_sat :
+  (forall t x y, 0 < bits t -> (sgn t = false -> bits t <> 31) ->
+     in_ty t x = true -> in_ty t y = true -> ct_add_sat t x y = Ok (rt_add_sat t x y)) /\
+  (forall t x y, 0 < bits t ->
+     in_ty t x = true -> in_ty t y = true -> code_add_sat t x y = Ok (rt_add_sat t x y)).
+Proof. exact (conj add_sat_ct_eq_rt add_sat_code_eq_rt). Qed.
+Print Assumptions C13_add_sat.
 
 Theorem C13_add_sat_u31_excluded :
   let t := {| bits := 31; sgn := false |} in
@@ -52,54 +48,51 @@ Print Assumptions C13_add_sat_u31_excluded.
 
 (** * C string loops of _strings/cstr.hpp against the C library specification: buffers of EVERY
     length and content.  [rt_F buf = None] means the call is undefined (no terminator inside the
-    array / fewer than n bytes); the loops then read outside the array (UB OutOfBounds). *)
+    array / fewer than n bytes); for strlen the loop then reads outside the array (UB OutOfBounds).
+    Characters are values of unsigned char (non-negative): cstr_compare converts to unsigned char. *)
+Theorem C13_cstring :
+  (forall buf, ct_strlen buf = match rt_strlen buf with Some n => Ok n | None => UB OutOfBounds end) /\
+  (forall l r v, Forall (fun c => 0 <= c) l -> Forall (fun c => 0 <= c) r ->
+     rt_strcmp l r = Some v -> ct_strcmp l r = Ok v) /\
+  (forall l r n v, Forall (fun c => 0 <= c) l -> Forall (fun c => 0 <= c) r ->
+     rt_strncmp l r n = Some v -> ct_strncmp l r n = Ok v) /\
+  (forall buf ch r, rt_strchr buf ch = Some r -> ct_strchr buf ch = Ok r) /\
+  (forall buf ch n r, rt_memchr buf ch n = Some r -> ct_memchr buf ch n = Ok r).
+Proof.
+  exact (conj strlen_ct_eq_rt (conj strcmp_ct_eq_rt (conj strncmp_ct_eq_rt
+          (conj strchr_ct_eq_rt memchr_ct_eq_rt)))).
+Qed.
+Print Assumptions C13_cstring.
 
-Theorem C13_strlen : forall buf,
-  ct_strlen buf = match rt_strlen buf with Some n => Ok n | None => UB OutOfBounds end.
-Proof. exact strlen_ct_eq_rt. Qed.
-Print Assumptions C13_strlen.
+(** * sign and classification: every value (zeros, infinities, NaNs of both signs, subnormals) of
+    every interchange-like format (exponent field exactly wide enough: binary32, binary64 -- the
+    bit_cast branch of signbit_fallback -- and x87 extended -- the __builtin_copysignl branch);
+    the comparison-based isnan / isinf fallbacks (dead code with GCC and Clang) for every value *)
+Theorem C13_sign_class :
+  (forall f x, std_fmt f -> valid f x = true -> ct_signbit f x = rt_signbit x) /\
+  (forall f x y, std_fmt f -> valid f x = true -> valid f y = true ->
+     ct_copysign f x y = rt_copysign x y) /\
+  (forall x, ct_isnan x = rt_isnan x) /\
+  (forall x, gcem_is_inf x = rt_isinf x).
+Proof.
+  exact (conj signbit_ct_eq_rt (conj copysign_ct_eq_rt (conj isnan_ct_eq_rt gcem_is_inf_spec))).
+Qed.
+Print Assumptions C13_sign_class.
 
-(* characters are values of unsigned char (non-negative): cstr_compare converts to unsigned char *)
-Theorem C13_strcmp : forall l r v,
-  Forall (fun c => 0 <= c) l -> Forall (fun c => 0 <= c) r ->
-  rt_strcmp l r = Some v -> ct_strcmp l r = Ok v.
-Proof. exact strcmp_ct_eq_rt. Qed.
-Print Assumptions C13_strcmp.
-
-Theorem C13_strncmp : forall l r n v,
-  Forall (fun c => 0 <= c) l -> Forall (fun c => 0 <= c) r ->
-  rt_strncmp l r n = Some v -> ct_strncmp l r n = Ok v.
-Proof. exact strncmp_ct_eq_rt. Qed.
-Print Assumptions C13_strncmp.
-
-Theorem C13_strchr : forall buf ch r, rt_strchr buf ch = Some r -> ct_strchr buf ch = Ok r.
-Proof. exact strchr_ct_eq_rt. Qed.
-Print Assumptions C13_strchr.
-
-Theorem C13_memchr : forall buf ch n r, rt_memchr buf ch n = Some r -> ct_memchr buf ch n = Ok r.
-Proof. exact memchr_ct_eq_rt. Qed.
-Print Assumptions C13_memchr.
-
-(** * classification *)
-Theorem C13_isnan_ct_eq_rt : forall x, ct_isnan x = rt_isnan x.
-Proof. exact isnan_ct_eq_rt. Qed.
-Print Assumptions C13_isnan_ct_eq_rt.
-
-(** * sign: every value (zeros, infinities, NaNs of both signs, subnormals) of every interchange-like
-    format (exponent field exactly wide enough: binary32, binary64, x87 extended) *)
-Theorem C13_signbit : forall f x, std_fmt f -> valid f x = true -> ct_signbit f x = rt_signbit x.
-Proof. exact signbit_ct_eq_rt. Qed.
-Print Assumptions C13_signbit.
-
-Theorem C13_copysign : forall f x y, std_fmt f -> valid f x = true -> valid f y = true ->
-  ct_copysign f x y = rt_copysign x y.
-Proof. exact copysign_ct_eq_rt. Qed.
-Print Assumptions C13_copysign.
-
+(* the three formats of the target satisfy the hypotheses of the floating-point theorems *)
 Theorem C13_formats : std_fmt binary32 /\ std_fmt binary64 /\ std_fmt x87ext /\
   fmt_ok binary32 /\ fmt_ok binary64 /\ fmt_ok x87ext.
 Proof. repeat split; vm_compute; congruence. Qed.
 Print Assumptions C13_formats.
+
+(* the quantifier "valid f x" is exactly "x is the value of a bit pattern": every bit pattern of an
+   interchange-like format decodes to a valid value, and every valid value (NaNs up to payload) is the
+   decoding of its encoding -- so the floating-point theorems cover every float and every double *)
+Theorem C13_codec : forall f, std_fmt f ->
+  (forall bits, valid f (decode f bits) = true) /\
+  (forall x, valid f x = true -> decode f (encode f x) = x).
+Proof. intros f Hs. exact (conj (fun bits => decode_valid f bits Hs) (fun x => decode_encode f x Hs)). Qed.
+Print Assumptions C13_codec.
 
 (** * rounding to an integral value: the gcem kernels (what constant evaluation runs: guard ladder,
     conversion to long long and back, correction by comparison) against the IEC 60559
@@ -107,43 +100,76 @@ Print Assumptions C13_formats.
     (zeros, subnormals, halves, huge values, infinities, NaNs) of EVERY format with
     2 <= precision <= 64 and precision < emax; a zero result has the sign of the argument and no
     conversion to long long is out of range *)
-Theorem C13_floor : forall f, fmt_ok f -> forall x, valid f x = true -> ct_floor f x = Ok (rt_floor x).
-Proof. exact floor_ct_eq_rt. Qed.
-Print Assumptions C13_floor.
+Theorem C13_round_to_integral : forall f, fmt_ok f -> forall x, valid f x = true ->
+  ct_floor f x = Ok (rt_floor x) /\ ct_ceil f x = Ok (rt_ceil x) /\
+  ct_trunc f x = Ok (rt_trunc x) /\ ct_round f x = Ok (rt_round x).
+Proof.
+  intros f Hf x Hv.
+  exact (conj (floor_ct_eq_rt f Hf x Hv) (conj (ceil_ct_eq_rt f Hf x Hv)
+          (conj (trunc_ct_eq_rt f Hf x Hv) (round_ct_eq_rt f Hf x Hv)))).
+Qed.
+Print Assumptions C13_round_to_integral.
 
-Theorem C13_ceil : forall f, fmt_ok f -> forall x, valid f x = true -> ct_ceil f x = Ok (rt_ceil x).
-Proof. exact ceil_ct_eq_rt. Qed.
-Print Assumptions C13_ceil.
-
-Theorem C13_trunc : forall f, fmt_ok f -> forall x, valid f x = true -> ct_trunc f x = Ok (rt_trunc x).
-Proof. exact trunc_ct_eq_rt. Qed.
-Print Assumptions C13_trunc.
-
-(* round: precision up to 63 bits (float, double); with the 64-bit significand of x87 long double
-   gcem::round converts floor(|x|) + 1 = 2^63 to long long for |x| = 2^63 - 1/2 (recorded finding
-   KF-C13-round-ld-2p63, C13_round_ld_refuted) *)
-Theorem C13_round : forall f, fmt_ok f -> prec f <= 63 -> forall x, valid f x = true ->
-  ct_round f x = Ok (rt_round x).
-Proof. exact round_ct_eq_rt. Qed.
-Print Assumptions C13_round.
-
-Theorem C13_round_ld_refuted :
+(* precision 64 (x87 long double): round(2^63 - 1/2) = 2^63, the argument on which the code before
+   the fix: commit 1802224 converted 2^63 to long long *)
+Theorem C13_round_ld_edge :
   let x := FFin false 18446744073709551615 (-1) in
-  valid x87ext x = true /\ ct_round x87ext x = UB SignedOverflow /\ rt_round x = FFin false 1 63.
-Proof. exact round_p64_overflows. Qed.
-Print Assumptions C13_round_ld_refuted.
+  valid x87ext x = true /\ ct_round x87ext x = Ok (FFin false 1 63) /\ rt_round x = FFin false 1 63.
+Proof. exact round_p64_edge. Qed.
+Print Assumptions C13_round_ld_edge.
+
+(* rint: detail::rint_fallback (truncate to long long, inspect the fraction, step by one, copysign)
+   against roundToIntegralTiesToEven; the two sides agree up to the sign of a NaN result (the
+   fallback returns a NaN argument unchanged, the specification leaves the sign of a NaN open).
+   lrint / llrint (64-bit results): wherever the run-time function is defined (the rounded value
+   fits) the fallback returns the same value and its float -> integer conversion is in range *)
+Theorem C13_rint_lrint : forall f, fmt_ok f -> std_fmt f -> forall x, valid f x = true ->
+  (exists y, ct_rint f x = Ok y /\ up_to_nan_sign y (rt_rint x)) /\
+  (forall n, rt_lrint x = Some n -> ct_lrint f x = Ok n).
+Proof.
+  intros f Hf Hs x Hv.
+  exact (conj (rint_ct_eq_rt f Hf Hs x Hv) (fun n => lrint_ct_eq_rt f Hf Hs x n Hv)).
+Qed.
+Print Assumptions C13_rint_lrint.
 
 (** * fma: recorded finding KF-C13-fma-unfused.  x * y + z with two roundings (constant evaluation)
-    differs from the fused builtin (run time) on fma(0.1f, 10.0f, -1.0f): 0 against 2^-26 * 1.6 *)
+    differs from the fused builtin (run time) on fma(0.1f, 10.0f, -1.0f): 0 against 2^-26 * 1.6;
+    the two agree for every format and every x, y, z (specials included) when the exact product of
+    x and y is a value of the format *)
 Theorem C13_fma_refuted : exists f x y z,
   valid f x = true /\ valid f y = true /\ valid f z = true /\ ct_fma f x y z <> rt_fma f x y z.
 Proof. exact fma_differs. Qed.
 Print Assumptions C13_fma_refuted.
 
+Theorem C13_fma_exact_product : forall f x y z, product_exact f x y -> ct_fma f x y z = rt_fma f x y z.
+Proof. exact fma_exact_product. Qed.
+Print Assumptions C13_fma_exact_product.
+
+(** * fmod / remainder: recorded findings KF-C13-fmod-ct-gcem, KF-C13-remainder-ct-is-fmod.  The
+    constant-evaluation fallback of both is gcem::fmod (rounded quotient, NaN for infinite operands);
+    the run-time builtins are exact: fmod(1e10f, 3.0f) = 0 / 1, remainder(5.0f, 3.0f) = 2 / -1,
+    fmod(5.0f, inf) = NaN / 5 *)
+Theorem C13_fmod_remainder_refuted :
+  (valid binary32 (f32 1343554297) = true /\ valid binary32 (f32 1077936128) = true /\
+   ct_fmod binary32 (f32 1343554297) (f32 1077936128) = Ok (FZero false) /\
+   rt_fmod (f32 1343554297) (f32 1077936128) = FFin false 1 0) /\
+  (valid binary32 (f32 1084227584) = true /\
+   ct_remainder binary32 (f32 1084227584) (f32 1077936128) = Ok (FFin false 1 1) /\
+   rt_remainder (f32 1084227584) (f32 1077936128) = FFin true 1 0) /\
+  (ct_fmod binary32 (f32 1084227584) (FInf false) = Ok qnan /\
+   rt_fmod (f32 1084227584) (FInf false) = f32 1084227584).
+Proof. exact fmod_remainder_refuted. Qed.
+Print Assumptions C13_fmod_remainder_refuted.
+
 (** * the hypotheses are satisfiable: "ab" against "abc" is defined and negative; the strings are
-    terminated inside their arrays *)
+    terminated inside their arrays; 2.5 and 3.5 are values of binary64 inside the domain of lrint;
+    1.5 * 2.0 is an exact product *)
 Example C13_nonvacuous :
   rt_strcmp [97; 98; 0] [97; 98; 99; 0] = Some (-1) /\ rt_strncmp [97; 98; 0] [97; 99; 0] 2 = Some (-1) /\
   rt_strchr [97; 98; 0] 98 = Some (Some 1) /\ rt_memchr [97; 98; 0] 98 3 = Some (Some 1) /\
-  in_ty i8 127 = true.
-Proof. repeat split. Qed.
+  in_ty i8 127 = true /\
+  valid binary64 (decode binary64 4612811918334230528) = true (* 2.5 *) /\
+  rt_lrint (decode binary64 4612811918334230528) = Some 2 /\
+  rt_lrint (decode binary64 4615063718147915776) = Some 4 (* 3.5 *) /\
+  product_exact binary64 (decode binary64 4609434218613702656) (decode binary64 4611686018427387904).
+Proof. exact nonvacuous. Qed.
